@@ -48,6 +48,24 @@ Theorem all_rule_covers_every_applicable_operation :
   In t (vis_types S (dws d)) -> fmatch (rflt (drl d)) t = true -> rops (eff_rule S d) = taclops t.
 Proof. exact (accepted_all_ops_cur all_rule_requires_uniform_operations). Qed.
 
+(* FULL STATEMENT (refuted by the code as it is, finding C13-F8):
+     forall S d, rfields (eff_rule S d) = rfields (drl d)
+   - a rule keeps the field list it was declared with.  The rule stores the caller's slice; what the
+   caller writes into that slice afterwards becomes the rule's field list. *)
+Theorem rule_fields_refuted_when_shared :
+  exists S d, rfields (eff_rule_gen false S d) <> rfields (drl d).
+Proof.
+  exists (mkSchema [] []), (mkD 20 0 false [6] (mkRule [acl_op_select] true (FQNames [14]) [5] 11)).
+  vm_compute. discriminate.
+Qed.
+(* PARTIAL: as long as the caller leaves its slice alone; and, full strength, once the rule clones it *)
+Theorem rule_fields_partial :
+  forall clones S d, clones = true \/ dscr d = [] -> rfields (eff_rule_gen clones S d) = rfields (drl d).
+Proof. intros clones S d H. exact (eff_fields_declared clones d H). Qed.
+Theorem rule_fields_kept_if_cloned :
+  acl_rule_clones_fields = true -> forall S d, rfields (eff_rule S d) = rfields (drl d).
+Proof. exact eff_rule_fields_cur. Qed.
+
 (* ===== the rule fold of checkOperationOnTypeForRoles ===== *)
 
 (* For every ordered rule list (= every schema: ancestors' rules first), operation, resource with
@@ -262,7 +280,7 @@ Theorem grants_first_refuted :
     is_allowed (install S (compiled_order_gen true l)) sysr w op res [] rol = ODeny.
 Proof.
   exists (mkSchema [mkTyp 11 19 20 [] None false false true false [8]; mkTyp 14 5 20 [] (Some [0; 1; 4; 5]) true false false true [1; 2; 3; 4; 5]] [mkWs 20 [] []]),
-    [mkD 20 7 false (mkRule [acl_op_select] false (FQNames [14]) [] 11); mkD 20 7 false (mkRule [acl_op_select] true (FQNames [14]) [] 11)],
+    [mkD 20 7 false [] (mkRule [acl_op_select] false (FQNames [14]) [] 11); mkD 20 7 false [] (mkRule [acl_op_select] true (FQNames [14]) [] 11)],
     99, 20, acl_op_select, 14, [11].
   split; [vm_compute; discriminate|]. split; vm_compute; reflexivity.
 Qed.
@@ -278,7 +296,7 @@ Theorem all_rule_refuted_without_uniformity :
 Proof.
   pose (v := mkTyp 13 12 20 [] (Some [0; 5]) false false false true [1; 2; 5]).
   pose (t := mkTyp 14 7 20 [] (Some [0; 1; 4; 5]) true false false true [1; 2; 3; 4; 5]).
-  exists (mkSchema [v; t] [mkWs 20 [] []]), (mkD 20 0 true (mkRule [] true (FQNames [13; 14]) [] 11)), t.
+  exists (mkSchema [v; t] [mkWs 20 [] []]), (mkD 20 0 true [] (mkRule [] true (FQNames [13; 14]) [] 11)), t.
   split; [reflexivity|]. split; [reflexivity|]. split; [vm_compute; auto|]. split; [reflexivity|]. vm_compute. discriminate.
 Qed.
 
@@ -367,9 +385,9 @@ Proof. vm_compute. repeat split. Qed.
 Example declared_order_nonvacuous :
   let S0 := mkSchema [ex_role 11; mkTyp 14 5 20 [] (Some [0; 1; 4; 5]) true false false true [1; 2; 3; 4; 5];
                       mkTyp 16 12 20 [] (Some [0; 5]) false false false true [1; 2; 5]] [mkWs 20 [] []] in
-  let g := mkD 20 0 false (mkRule [acl_op_select] true (FQNames [14]) [] 11) in
-  let r := mkD 20 0 false (mkRule [acl_op_select] false (FQNames [14]) [] 11) in
-  let all := mkD 20 0 true (mkRule [] true (FQNames [14; 16]) [] 11) in
+  let g := mkD 20 0 false [] (mkRule [acl_op_select] true (FQNames [14]) [] 11) in
+  let r := mkD 20 0 false [] (mkRule [acl_op_select] false (FQNames [14]) [] 11) in
+  let all := mkD 20 0 true [] (mkRule [] true (FQNames [14; 16]) [] 11) in
   is_allowed (install S0 [g; r; g]) 99 20 acl_op_select 14 [] [11] = OAllow /\
   is_allowed (install S0 [g; r]) 99 20 acl_op_select 14 [] [11] = ODeny /\
   is_allowed (install S0 [r; g; r]) 99 20 acl_op_select 14 [] [11] = ODeny /\
@@ -381,10 +399,10 @@ Example all_rule_nonvacuous :
   let S0 := mkSchema [mkTyp 13 7 20 [] (Some [0; 1; 4; 5]) true false false true [1; 2; 3; 4; 5];
                       mkTyp 14 5 20 [] (Some [0; 1; 4; 6]) true false false true [1; 2; 3; 4; 5];
                       mkTyp 16 12 20 [] (Some [0; 5]) false false false true [1; 2; 5]] [mkWs 20 [] []] in
-  accepted S0 (mkD 20 0 true (mkRule [] true (FQNames [13; 14]) [] 11)) = true /\
-  rops (eff_rule S0 (mkD 20 0 true (mkRule [] true (FQNames [13; 14]) [] 11))) = [1; 2; 3; 4; 5] /\
-  accepted S0 (mkD 20 0 true (mkRule [] true (FQNames [14; 16]) [] 11)) = false /\
-  accepted S0 (mkD 20 0 false (mkRule [acl_op_select] true (FQNames [14; 16]) [] 11)) = true.
+  accepted S0 (mkD 20 0 true [] (mkRule [] true (FQNames [13; 14]) [] 11)) = true /\
+  rops (eff_rule S0 (mkD 20 0 true [] (mkRule [] true (FQNames [13; 14]) [] 11))) = [1; 2; 3; 4; 5] /\
+  accepted S0 (mkD 20 0 true [] (mkRule [] true (FQNames [14; 16]) [] 11)) = false /\
+  accepted S0 (mkD 20 0 false [] (mkRule [acl_op_select] true (FQNames [14; 16]) [] 11)) = true.
 Proof. vm_compute. repeat split. Qed.
 
 (* consequences of the declared semantics that look odd (seed agent c13-5, observations 8a-8c); the
@@ -434,6 +452,9 @@ Print Assumptions all_rule_covers_every_applicable_operation.
 Print Assumptions grants_first_refuted.
 Print Assumptions grants_first_partial.
 Print Assumptions all_rule_refuted_without_uniformity.
+Print Assumptions rule_fields_refuted_when_shared.
+Print Assumptions rule_fields_partial.
+Print Assumptions rule_fields_kept_if_cloned.
 Print Assumptions fields_fold_is_last_rule_wins.
 Print Assumptions fold_result_with_fields.
 Print Assumptions fold_result_without_fields.
